@@ -6,14 +6,50 @@ MAPDB = "kvstore/mapdb/mapdb.go:"
 SYNCED = "kvstore/mapdb/synced_map.go:"
 
 
+FLUSH = "kvstore/flushkv/flushkv.go:"
+
+# functions whose exact (gofmt-normalised, comment-free) text is pinned: the ones the protocol model summarises without
+# a lock skeleton of their own - "loads the flag, touches no lock, returns a NEW object with a zero-valued lock" - and the
+# whole mutation path of the flushkv wrapper (wrapped mutation, then Flush, ErrStoreClosed of that Flush swallowed)
+SRCPIN = [
+    MAPDB + "NewMapDB", MAPDB + "mapDB.WithRealm", MAPDB + "mapDB.WithExtendedRealm", MAPDB + "mapDB.Realm", MAPDB + "mapDB.Batched",
+    MAPDB + "mapDB.Flush",
+    FLUSH + "flushAfterMutation", FLUSH + "New", FLUSH + "flushKVStore.WithRealm", FLUSH + "flushKVStore.Set", FLUSH + "flushKVStore.Delete",
+    FLUSH + "flushKVStore.DeletePrefix", FLUSH + "flushKVStore.Clear", FLUSH + "flushKVStore.Get", FLUSH + "flushKVStore.Has",
+    FLUSH + "flushKVStore.Iterate", FLUSH + "flushKVStore.IterateKeys", FLUSH + "flushKVStore.Flush", FLUSH + "flushKVStore.Close",
+    FLUSH + "flushKVStore.Batched", FLUSH + "batchedMutations.Commit=flush_batch_Commit", FLUSH + "batchedMutations.Set=flush_batch_Set",
+    FLUSH + "batchedMutations.Delete=flush_batch_Delete", FLUSH + "batchedMutations.Cancel=flush_batch_Cancel",
+]
+
+
+def regen_srcpin(ctx):
+    """Regenerates lean/Hive/Gen/C05_Src.lean (namespace Hive.Gen.C05Src) with harness/c05/srcpin."""
+    out = os.path.join(checklib.LEAN, "Hive", "Gen", "C05_Src.lean")
+    tmp = os.path.join(ctx.scratch, "C05_Src.lean")
+    args = ["go", "run", "./c05/srcpin", tmp, "Hive.Gen.C05Src"]
+    for rq in SRCPIN:
+        path, name = rq.rsplit(":", 1)
+        args.append(os.path.join(ctx.repo, path) + ":" + name)
+    rc, log = checklib.sh(args, cwd=checklib.HARNESS, timeout=600)
+    if rc != 0 or not os.path.exists(tmp):
+        return [{"kind": "skeleton-extractor", "detail": "srcpin: " + checklib.tail(log, 20)}]
+    checklib.write_gen(ctx, out, open(tmp).read())
+    return []
+
+
 def regen(ctx):
-    return checklib.regen_skeletons(ctx, [
+    fails = checklib.regen_skeletons(ctx, [
         MAPDB + "mapDB.Get", MAPDB + "mapDB.Has", MAPDB + "mapDB.Set", MAPDB + "mapDB.Delete", MAPDB + "mapDB.DeletePrefix",
         MAPDB + "mapDB.Clear", MAPDB + "mapDB.Iterate", MAPDB + "mapDB.IterateKeys", MAPDB + "mapDB.Close",
         MAPDB + "batchedMutations.Commit", MAPDB + "mapDB.set", MAPDB + "mapDB.delete",
         SYNCED + "syncedKVMap.get", SYNCED + "syncedKVMap.has", SYNCED + "syncedKVMap.set", SYNCED + "syncedKVMap.delete",
         SYNCED + "syncedKVMap.deletePrefix", SYNCED + "syncedKVMap.iterate", SYNCED + "syncedKVMap.iterateKeys",
+        # flag-only calls, batch-local calls, and the types whose embedded locks the model's LockIds stand for
+        MAPDB + "mapDB.WithRealm", MAPDB + "mapDB.WithExtendedRealm", MAPDB + "mapDB.Flush", MAPDB + "mapDB.Batched",
+        MAPDB + "batchedMutations.Set", MAPDB + "batchedMutations.Delete", MAPDB + "batchedMutations.Cancel",
+        MAPDB + "type=mapDB", MAPDB + "type=batchedMutations", SYNCED + "type=syncedKVMap",
     ], extra_methods=["Load", "Swap"])
+    return (fails or []) + regen_srcpin(ctx)
 
 
 SPEC = {
@@ -29,7 +65,10 @@ SPEC = {
                  "C05_code_well_bracketed", "C05_effects_are_C04_spec", "C05_commit_effects_are_C04_spec",
                  "C05_checker_sound", "C05_skeleton_get", "C05_skeleton_has", "C05_skeleton_set", "C05_skeleton_delete",
                  "C05_skeleton_deletePrefix", "C05_skeleton_clear", "C05_skeleton_iterate", "C05_skeleton_close",
-                 "C05_skeleton_commit", "C05_skeleton_map_primitives", "C05_skeleton_map_iterate"],
+                 "C05_skeleton_commit", "C05_skeleton_map_primitives", "C05_skeleton_map_iterate",
+                 "C05_unused_lock_is_free", "C05_flag_only_calls", "C05_flag_call_contract",
+                 "C05_skeleton_flag_calls", "C05_skeleton_batch_ops", "C05_skeleton_type_locks",
+                 "C05_source_fresh_objects", "C05_source_flushkv", "C05_source_flushkv_forwarders"],
     "trusted_base": [
         "hand-written protocol model Hive/Model/KVConc.lean of kvstore/mapdb's locking (closed-flag load, view RWMutex, map RWMutex, "
         "batch Mutex, one atomic access per map primitive); tied to the working tree by (i) the regenerated synchronisation "
